@@ -66,7 +66,7 @@ var props = map[string]*propSpec{
 	},
 	"C04": {
 		Level: "fault_enumeration",
-		Rule: "per baseline (seeded configuration x workload of 1-5 RPCs in assorted phases x schedule) the fault-free run reports its N carrier frames; then each of 6 termination causes (channel Close, cancel / expiry of the opening context, Stop, GracefulStop+Stop, carrier failure) is injected at frame boundary k (thorough: every k in 1..N; quick: a stratified sample) and the run is driven to final quiescence (all timers fired); plus fully random placements; plus a variant in which a second channel was started from the same pending channel and must outlive the Close of the first; " +
+		Rule: "per baseline (seeded configuration x workload of 1-5 RPCs in assorted phases x schedule) (some handlers wait for their context, some of those then send headers or simply carry on until the harness releases them after the drain probe) the fault-free run reports its N carrier frames; then each of 6 termination causes (channel Close, cancel / expiry of the opening context, Stop, GracefulStop+Stop, carrier failure) is injected at frame boundary k (thorough: every k in 1..N; quick: a stratified sample) and the run is driven to final quiescence (all timers fired); plus fully random placements; plus a variant in which a second channel was started from the same pending channel and must outlive the Close of the first; " +
 			"non-trivial = the tunnel ended while at least one RPC was in flight; distinct = distinct schedule digests",
 		Families:       []famPlan{{Family: "teardown", Weight: 3, Enum: true, EnumCauses: 6, EnumQuick: 10}, {Family: "teardown", Weight: 1}, {Family: "teardown", Weight: 1, Param: map[string]int{"sibling": 1, "cause": 0}}, {Family: "teardown", Weight: 1, Param: map[string]int{"fromhandler": 1, "cause": 3}}},
 		QuickBudget:    55 * time.Second,
